@@ -367,14 +367,17 @@ Proof. destruct s; reflexivity. Qed.
 Lemma read_set_close : forall f rest, read_set (S f) false (Plain c_rbr :: rest) = Ok ([], rest).
 Proof. reflexivity. Qed.
 
-Lemma read_set_seq : forall f e seq first rest,
+(* reading a set body: the members when no range is inverted, re.error "bad character range" otherwise *)
+Definition set_result (seq : text) (rest : list rtok) : outcome (list setitem * list rtok) :=
+  if seq_wf seq then Ok (seq_items seq, rest) else Err BadRange.
+
+Lemma read_set_gen : forall f e seq first rest,
   (length seq < f)%nat ->
   (first = true -> seq <> []) ->
   (forall c s, seq = c :: s -> (c = c_rbr -> first = true) /\ ~ In c_rbr s /\ (e = true -> is_ascii_alnum c = false)) ->
-  seq_wf seq = true ->
-  read_set f first (stoks e seq ++ Plain c_rbr :: rest) = Ok (seq_items seq, rest).
+  read_set f first (stoks e seq ++ Plain c_rbr :: rest) = set_result seq rest.
 Proof.
-  induction f as [|f IH]; intros e seq first rest Hlen Hne Hhd Hwf; [lia|].
+  induction f as [|f IH]; intros e seq first rest Hlen Hne Hhd; [lia|].
   destruct seq as [|c s].
   - destruct first; [exfalso; now apply Hne|]. reflexivity.
   - destruct (Hhd c s eq_refl) as (Hc & Hs & He). clear Hhd.
@@ -389,10 +392,9 @@ Proof.
       assert (Hs' : ~ In c_rbr s') by (intros Hin; apply Hs; now right).
       cbn [map app length] in *.
       (* the recursive reading of d :: s' as a fresh member list *)
-      assert (Rec : seq_wf (d :: s') = true ->
-                    read_set f false (enc1 d :: map enc1 s' ++ Plain c_rbr :: rest) = Ok (seq_items (d :: s'), rest)).
-      { intros W. change (enc1 d :: map enc1 s' ++ Plain c_rbr :: rest) with (stoks false (d :: s') ++ Plain c_rbr :: rest).
-        apply IH; [cbn [length]; lia|discriminate| |exact W].
+      assert (Rec : read_set f false (enc1 d :: map enc1 s' ++ Plain c_rbr :: rest) = set_result (d :: s') rest).
+      { change (enc1 d :: map enc1 s' ++ Plain c_rbr :: rest) with (stoks false (d :: s') ++ Plain c_rbr :: rest).
+        apply IH; [cbn [length]; lia|discriminate|].
         intros c0 s0 E0. injection E0 as <- <-. repeat split; [intros; contradiction|assumption|discriminate]. }
       destruct (d =? c_dash) eqn:Edash.
       * apply N.eqb_eq in Edash. subst d. replace (enc1 c_dash) with (Plain c_dash) by reflexivity.
@@ -401,26 +403,45 @@ Proof.
         -- cbn [map app]. rewrite N.eqb_refl. reflexivity.
         -- assert (Hhi : hi <> c_rbr) by (intros ->; apply Hs'; now left).
            assert (Hr' : ~ In c_rbr r') by (intros Hin; apply Hs'; now right).
-           rewrite seq_wf_range in Hwf. apply andb_prop in Hwf. destruct Hwf as [Hle Hwf].
-           assert (Hlt : (hi <? c) = false) by (apply N.ltb_ge; now apply N.leb_le).
-           assert (Rec2 : read_set f false (map enc1 r' ++ Plain c_rbr :: rest) = Ok (seq_items r', rest)).
-           { rewrite <- (stoks_false r'). apply IH; [cbn [length] in Hlen; lia|discriminate| |exact Hwf].
+           assert (Rec2 : read_set f false (map enc1 r' ++ Plain c_rbr :: rest) = set_result r' rest).
+           { rewrite <- (stoks_false r'). apply IH; [cbn [length] in Hlen; lia|discriminate|].
              intros c0 s0 E0. subst r'. repeat split.
              - intros ->. exfalso. apply Hr'. now left.
              - intros Hin. apply Hr'. now right.
              - discriminate. }
-           cbn [map app]. rewrite seq_items_range. unfold enc1 at 1.
+           assert (Fin : (if hi <? c then Err BadRange
+                          else bind (read_set f false (map enc1 r' ++ Plain c_rbr :: rest))
+                                    (fun p => Ok (SRange c hi :: fst p, snd p)))
+                         = set_result (c :: c_dash :: hi :: r') rest).
+           { unfold set_result. rewrite seq_wf_range, seq_items_range. rewrite Rec2. unfold set_result.
+             destruct (c <=? hi) eqn:Hle.
+             - assert (Hlt : (hi <? c) = false) by (apply N.ltb_ge; now apply N.leb_le). rewrite Hlt. cbn [andb].
+               destruct (seq_wf r'); reflexivity.
+             - assert (Hlt : (hi <? c) = true) by (apply N.ltb_lt; now apply N.leb_gt). rewrite Hlt. reflexivity. }
+           cbn [map app]. unfold enc1 at 1.
            destruct (hi =? c_bsl) eqn:Eb.
            ++ apply N.eqb_eq in Eb. subst hi. change (set_code (enc1 c_bsl)) with (@Ok N c_bsl).
-              cbn [bind]. rewrite Hlt, Rec2. reflexivity.
-           ++ apply N.eqb_neq in Hhi. rewrite Hhi, Hlt, Rec2. reflexivity.
-      * rewrite seq_wf_lit in Hwf by assumption. rewrite seq_items_lit by assumption.
-        specialize (Rec Hwf).
+              cbn [bind]. exact Fin.
+           ++ apply N.eqb_neq in Hhi. rewrite Hhi. exact Fin.
+      * assert (Fin : bind (read_set f false (enc1 d :: map enc1 s' ++ Plain c_rbr :: rest))
+                           (fun p => Ok (SLit c :: fst p, snd p)) = set_result (c :: d :: s') rest).
+        { rewrite Rec. unfold set_result. rewrite seq_wf_lit, seq_items_lit by assumption.
+          destruct (seq_wf (d :: s')); reflexivity. }
         destruct (d =? c_bsl) eqn:Eb.
         -- assert (Henc : enc1 d = Esc c_bsl) by (unfold enc1; now rewrite Eb).
-           rewrite Henc in *. rewrite Rec. reflexivity.
+           rewrite Henc in *. exact Fin.
         -- assert (Henc : enc1 d = Plain d) by (unfold enc1; now rewrite Eb).
-           rewrite Henc in *. rewrite Edash, Rec. reflexivity.
+           rewrite Henc in *. rewrite Edash. exact Fin.
+Qed.
+
+Lemma read_set_seq : forall f e seq first rest,
+  (length seq < f)%nat ->
+  (first = true -> seq <> []) ->
+  (forall c s, seq = c :: s -> (c = c_rbr -> first = true) /\ ~ In c_rbr s /\ (e = true -> is_ascii_alnum c = false)) ->
+  seq_wf seq = true ->
+  read_set f first (stoks e seq ++ Plain c_rbr :: rest) = Ok (seq_items seq, rest).
+Proof.
+  intros f e seq first rest H1 H2 H3 Hwf. rewrite read_set_gen by assumption. unfold set_result. now rewrite Hwf.
 Qed.
 
 Definition tok_item (t : gtok) : item :=
@@ -494,31 +515,33 @@ Lemma read_items_S : forall f this r,
        end).
 Proof. reflexivity. Qed.
 
-Lemma read_items_tok : forall t f rest,
-  tok_valid t -> tok_wf t = true -> no_repeat_head rest ->
-  read_items (S f) (rtoks t ++ rest) = bind (read_items f rest) (fun p => Ok (tok_item t :: fst p, snd p)).
+Lemma read_items_tok_gen : forall t f rest,
+  tok_valid t -> no_repeat_head rest ->
+  read_items (S f) (rtoks t ++ rest) =
+  if tok_wf t then bind (read_items f rest) (fun p => Ok (tok_item t :: fst p, snd p)) else Err BadRange.
 Proof.
-  intros t f rest Hv Hw Hr.
-  destruct t as [| | |neg seq|c]; cbn [rtoks tok_item].
+  intros t f rest Hv Hr.
+  destruct t as [| | |neg seq|c]; cbn [rtoks tok_item tok_wf].
   - (* * *) cbn [app]. rewrite read_items_S. reflexivity.
   - (* ** *) cbn [app]. rewrite read_items_S. reflexivity.
   - (* ? *) cbn [app]. rewrite read_items_S. cbn [is_rpar read_atom]. 
     replace (c_dot =? c_rpar) with false by reflexivity. rewrite N.eqb_refl. cbn [bind fst snd].
     now rewrite repeat_suffix_none.
   - (* set *)
-    cbn [tok_valid tok_wf] in *. destruct Hv as [Hne Hnr].
+    cbn [tok_valid] in *. destruct Hv as [Hne Hnr].
     cbn [app]. rewrite read_items_S. cbn [is_rpar]. replace (c_lbr =? c_rpar) with false by reflexivity.
     cbn [read_atom]. replace (c_lbr =? c_dot) with false by reflexivity. rewrite N.eqb_refl.
     destruct seq as [|h s]; [congruence|]. cbn [tl] in Hnr.
     assert (RS : forall e first0 fuel, first0 = true -> (e = true -> is_ascii_alnum h = false) ->
                  (length (h :: s) < fuel)%nat ->
-                 read_set fuel first0 (stoks e (h :: s) ++ Plain c_rbr :: rest) = Ok (seq_items (h :: s), rest)).
-    { intros e first0 fuel -> He Hf. apply read_set_seq; [assumption|discriminate| |assumption].
+                 read_set fuel first0 (stoks e (h :: s) ++ Plain c_rbr :: rest) = set_result (h :: s) rest).
+    { intros e first0 fuel -> He Hf. apply read_set_gen; [assumption|discriminate|].
       intros c0 s0 E0. injection E0 as <- <-. repeat split; auto. }
     unfold set_toks. destruct neg.
     + cbn [app]. rewrite N.eqb_refl. rewrite <- app_assoc. cbn [app].
       rewrite <- (stoks_false (h :: s)). rewrite RS; [|reflexivity|discriminate|].
-      * cbn [bind fst snd]. now rewrite repeat_suffix_none.
+      * unfold set_result. destruct (seq_wf (h :: s)); [|reflexivity].
+        cbn [bind fst snd]. now rewrite repeat_suffix_none.
       * unfold stoks, this_tok. repeat (progress cbn [length map app] || rewrite app_length || rewrite map_length). lia.
     + rewrite <- app_assoc. cbn [app].
       assert (Hhead : match stoks (first_escaped (h :: s)) (h :: s) ++ Plain c_rbr :: rest with
@@ -530,7 +553,8 @@ Proof.
         apply orb_false_elim in Ee. destruct Ee as [Eh _]. unfold enc1. destruct (h =? c_bsl); [reflexivity|].
         now rewrite Eh. }
       rewrite Hhead. rewrite RS; [|reflexivity| |].
-      * cbn [bind fst snd]. now rewrite repeat_suffix_none.
+      * unfold set_result. destruct (seq_wf (h :: s)); [|reflexivity].
+        cbn [bind fst snd]. now rewrite repeat_suffix_none.
       * cbn [first_escaped]. intros Ee. orb_cases Ee; apply N.eqb_eq in Ee; subst h; reflexivity.
       * unfold stoks, this_tok. repeat (progress cbn [length map app] || rewrite app_length || rewrite map_length). lia.
   - (* literal *)
@@ -546,15 +570,17 @@ Proof.
   destruct (re_escaped c) eqn:E; cbn; [exact I|]. now destruct (not_escaped_facts c E) as (_ & H & _).
 Qed.
 
-Lemma read_items_all : forall ts f, (length ts < f)%nat -> Forall tok_valid ts -> forallb tok_wf ts = true ->
-  read_items f (concat (map rtoks ts) ++ suffix_toks) = Ok (map tok_item ts, [Esc c_Z]).
+Lemma read_items_all_gen : forall ts f, (length ts < f)%nat -> Forall tok_valid ts ->
+  read_items f (concat (map rtoks ts) ++ suffix_toks) =
+  if forallb tok_wf ts then Ok (map tok_item ts, [Esc c_Z]) else Err BadRange.
 Proof.
-  induction ts as [|t r IH]; intros f Hf Hv Hw.
+  induction ts as [|t r IH]; intros f Hf Hv.
   - destruct f; [cbn in Hf; lia|]. reflexivity.
   - destruct f; [cbn in Hf; lia|]. cbn [length] in Hf.
-    inversion Hv as [|? ? Hvt Hvr]; subst. cbn [forallb] in Hw. apply andb_prop in Hw. destruct Hw as [Hwt Hwr].
-    cbn [map concat]. rewrite <- app_assoc. rewrite read_items_tok; [|assumption|assumption|].
-    + rewrite IH by (assumption || lia). reflexivity.
+    inversion Hv as [|? ? Hvt Hvr]; subst. cbn [forallb].
+    cbn [map concat]. rewrite <- app_assoc. rewrite read_items_tok_gen; [|assumption|].
+    + destruct (tok_wf t); [|reflexivity]. rewrite IH by (assumption || lia). cbn [andb].
+      destruct (forallb tok_wf r); reflexivity.
     + destruct r as [|t' r']; cbn [map concat]; [cbn; reflexivity|]. rewrite <- app_assoc. apply rtoks_head.
 Qed.
 
@@ -565,13 +591,13 @@ Proof.
   destruct t as [| | |neg seq|c]; cbn; try lia. destruct (re_escaped c); cbn; lia.
 Qed.
 
-Theorem read_re_translated : forall ts, Forall tok_valid ts -> forallb tok_wf ts = true ->
-  read_re (t_prefix ++ render ts ++ t_suffix) = Ok (map tok_item ts).
+Theorem read_re_translated_gen : forall ts, Forall tok_valid ts ->
+  read_re (t_prefix ++ render ts ++ t_suffix) = if forallb tok_wf ts then Ok (map tok_item ts) else Err BadRange.
 Proof.
-  intros ts Hv Hw. unfold read_re. rewrite tokenize_translated. cbn [bind prefix_toks app].
+  intros ts Hv. unfold read_re. rewrite tokenize_translated. cbn [bind prefix_toks app].
   replace ((c_lpar =? c_lpar) && (c_qm =? c_qm) && (c_s =? c_s) && (c_colon =? c_colon)) with true by reflexivity.
-  rewrite read_items_all; [| |assumption|assumption].
-  - cbn [bind snd fst]. rewrite N.eqb_refl. reflexivity.
+  rewrite read_items_all_gen; [| |assumption].
+  - destruct (forallb tok_wf ts); [|reflexivity]. cbn [bind snd fst]. rewrite N.eqb_refl. reflexivity.
   - rewrite app_length. pose proof (rtoks_length ts). lia.
 Qed.
 
@@ -671,14 +697,24 @@ Proof.
 Qed.
 
 (* ------------------------------------------------------------------ the main theorem *)
-Theorem qnmatch_meaning : forall p n,
-  wf_pattern p = true -> qnmatch n p = Ok (matches p n).
+(* complete characterisation: an answer exactly when no range is inverted, re.error otherwise *)
+Theorem qnmatch_characterised : forall p n,
+  qnmatch n p = if wf_pattern p then Ok (matches p n) else Err BadRange.
 Proof.
-  intros p n Hwf. unfold qnmatch, compile_pattern, match_re.
+  intros p n. unfold qnmatch, compile_pattern, match_re.
   rewrite translate_render. cbn [bind].
-  rewrite read_re_translated; [|apply lex_fuel_valid|exact Hwf].
+  rewrite read_re_translated_gen by apply lex_fuel_valid.
+  unfold wf_pattern, matches. destruct (forallb tok_wf (lex p)); [|reflexivity].
   cbn [bind]. now rewrite match_items_gmatch.
 Qed.
+
+Theorem qnmatch_meaning : forall p n,
+  wf_pattern p = true -> qnmatch n p = Ok (matches p n).
+Proof. intros p n H. rewrite qnmatch_characterised. now rewrite H. Qed.
+
+Theorem qnmatch_inverted : forall p n,
+  wf_pattern p = false -> qnmatch n p = Err BadRange.
+Proof. intros p n H. rewrite qnmatch_characterised. now rewrite H. Qed.
 
 (* ------------------------------------------------------------------ the boolean matcher of Spec.Glob is the relation *)
 Lemma cuts_in : forall n u v, In (u, v) (cuts n) -> n = u ++ v.
